@@ -58,6 +58,9 @@ var c20Templates = []struct{ name, code string }{
 	{"defer", "r = \"ok\"; try { func() { defer %s(1) }() } catch e { r = \"E\" }"},
 	{"member-K", "r = (%s.K) ?? \"E\""}, {"addr-member", "t = %s; p = &t; r = (p.k) ?? \"E\""}, {"addr-member-K", "t = %s; p = &t; r = (p.K) ?? \"E\""},
 	{"addr-deref", "t = %s; p = &t; r = (*p == t) ?? \"E\""},
+	// a field (or entry) assigned through a variable, and through a pointer to the variable, wherever the value came from
+	{"assign-member-K", "t = %s; r = \"ok\"; try { t.K = 9; r = [t.K] } catch e { r = \"E\" }"},
+	{"addr-assign-member-K", "t = %s; p = &t; r = \"ok\"; try { p.K = 9; r = [p.K] } catch e { r = \"E\" }"},
 	{"delete-flag", "gq = 1; func() { delete(\"gq\", %s) }(); r = (gq ?? \"gone\")"},
 	{"make-type", "r = \"ok\"; try { make(type TQ, %s); r = [make(TQ)] } catch e { r = \"E\" }"},
 	{"defer-arg", "r = 0; func() { defer func(a) { r = [a] }(%s) }(); r"}, {"defer-go-arg", "r = 0; func() { defer probe(%s) }(); r"},
